@@ -254,6 +254,23 @@ func runSync(c *Case) ([]Obs, any) {
 					h.Handle(ctx, ext)
 				}
 				return Obs{OK}
+			case "utx", "uinv": // gate only: is the message acted upon (queued / answered) at all
+				t := op.Int(0)
+				tx := tu.TxRel(1000+t, []int64{90000 + t*10}, true)
+				before := len(f.node.VerifTxChannel().Channel)
+				acted := false
+				if op.Name == "utx" {
+					f.untrust[wire.CmdTx].Handle(ctx, tx)
+					acted = len(f.node.VerifTxChannel().Channel) > before
+					f.node.VerifDrainTxs(ctx)
+				} else {
+					h := *tx.TxHash()
+					inv := wire.NewMsgInv()
+					inv.AddInvVect(wire.NewInvVect(wire.InvTypeTx, &h))
+					resp, _ := f.untrust[wire.CmdInv].Handle(ctx, inv)
+					acted = len(resp) > 0 || f.utracker.VerifHas(h) || f.node.VerifMemPool().TransactionExists(&h)
+				}
+				return Obs{OK, b2i(acted)}
 			case "uheaders":
 				_, err := f.untrust[wire.CmdHeaders].Handle(ctx, mkHeaders(op.IntLists(0)))
 				code := int64(OK)
